@@ -4,6 +4,7 @@ import FunsorVerif.Core.XR
 import FunsorVerif.Core.Semiring
 import FunsorVerif.Model.C11
 import FunsorVerif.Model.C11.Tape
+import FunsorVerif.Model.C11.Dag
 namespace FV.Drv.C11
 open FV FV.C11
 
@@ -125,6 +126,8 @@ def run (szl : List Nat) (ls : List LeafD) (e : Expr) : String :=
   let env0 : Env := fun _ => 0
   let fwd := (points (Fv.map (fun v => (v, sz v))) env0).map (eval o sz L e)
   let G := adjoint o sz L n e
+  let dag := Dag.ofExpr e
+  if !Dag.dagOK dag then "err dag-refs" else
   let leaves := ls.map fun l =>
     let g := G l.id
     let gv := maskVars n g.mask
@@ -138,8 +141,21 @@ def run (szl : List Nat) (ls : List LeafD) (e : Expr) : String :=
     -- the same adjoint by the tape sweep over the hash-consed DAG (Model/C11/Tape.lean)
     let tg := Tape.tapeAdjoint o sz L n e l.id
     let ts := pts.map (marginal o sz L n F l.id tg)
-    Sexp.list [Sexp.atom "leaf", Sexp.ofNat l.id, Sexp.ofNats gv, xs gtab, xs fs, xs dv, xs ts]
-  "ok " ++ toString (Sexp.list [Sexp.ofNats Fv, xs fwd, Sexp.list leaves])
+    -- … and by the sweep over the DAG with argument indices (Model/C11/Dag.lean, dag_adjoint_sound)
+    let dg := if dag.isEmpty then G l.id else Dag.dagAdjoint o sz L n F dag l.id
+    let ds := pts.map (marginal o sz L n F l.id dg)
+    Sexp.list [Sexp.atom "leaf", Sexp.ofNat l.id, Sexp.ofNats gv, xs gtab, xs fs, xs dv, xs ts, xs ds]
+  -- the trace of the DAG sweep: order of pops, and the value accumulated at each node when popped,
+  -- tabulated over (inputs of the node ∪ inputs of the root)
+  let tbl := Dag.table dag
+  let trace := (Dag.dagTrace o sz L n F dag).zipIdx.map fun (q, i) =>
+    let E := match tbl[i]? with
+      | some x => x
+      | none => Dag.dflt
+    let vars := maskVars n (fun k => fvMask L E k || F k)
+    let tab := (points (vars.map (fun v => (v, sz v))) env0).map q.2.f
+    Sexp.list [Sexp.ofNat (q.1 / 2), Sexp.ofNats vars, xs tab]
+  "ok " ++ toString (Sexp.list [Sexp.ofNats Fv, xs fwd, Sexp.list leaves, Sexp.list trace])
 
 /--
   C11 adjoint (sz…) ((id ((axis size)…) (data…))…) expr
